@@ -76,12 +76,14 @@ func (l *Ledger) Assert(id string) {
 		nd.Assert(id+".nonneg", nd.And(l.TDS[k].GTE(zero), l.VS[k].GTE(zero), l.DelSum[k].GTE(zero)))
 	}
 	for _, d := range l.Denoms {
-		nd.Assert(id+".valsum", l.VSSum[d].Equal(l.TVS[d]))
-		nd.Assert(id+".nonneg", l.TVS[d].GTE(zero))
-		// reset: no staked tokens => no validator shares of that denom anywhere
+		// reset: no staked tokens => no validator shares of that denom anywhere. Asserted BEFORE the
+		// sum: the engine continues under the assumption that a decided assertion holds, and the paths
+		// on which the total returns to zero lie inside the region of the known `.valsum` finding.
 		if !l.Tok[d].IsNil() {
 			nd.Assert(id+".reset", nd.Implies(l.Tok[d].IsZero(), nd.And(l.TVS[d].IsZero(), l.VSSum[d].IsZero())))
 		}
+		nd.Assert(id+".valsum", l.VSSum[d].Equal(l.TVS[d]))
+		nd.Assert(id+".nonneg", l.TVS[d].GTE(zero))
 	}
 }
 
@@ -127,8 +129,10 @@ func c03Step(id string, op Op, ps []Pos, o Opts, pending bool) {
 
 // C03: the share ledger (delegator sums, validator sums, non-negativity, reset at zero) is
 // re-established by every successful operation from any RI state (RI has the sums by construction).
-func H_C03_step_delegate()   { c03Step("C03.step.delegate", OpDelegate, shape3("shape"), Opts{}, false) }
-func H_C03_step_undelegate() { c03Step("C03.step.undelegate", OpUndelegate, shapeActor("shape"), Opts{}, false) }
+func H_C03_step_delegate() { c03Step("C03.step.delegate", OpDelegate, shape3("shape"), Opts{}, false) }
+func H_C03_step_undelegate() {
+	c03Step("C03.step.undelegate", OpUndelegate, shapeActor("shape"), Opts{}, false)
+}
 
 // H_C03_step_exit_dustval: the last staker leaves (staked total returns to zero) while another
 // validator still holds a dust remainder of validator shares and no delegation: the reset must
@@ -136,9 +140,13 @@ func H_C03_step_undelegate() { c03Step("C03.step.undelegate", OpUndelegate, shap
 func H_C03_step_exit_dustval() {
 	c03Step("C03.step.exit_dustval", OpUndelegate, []Pos{{0, 0, 0}}, Opts{DustVal: true}, false)
 }
-func H_C03_step_redelegate() { c03Step("C03.step.redelegate", OpRedelegate, shapeActor("shape"), Opts{}, false) }
-func H_C03_step_claim()      { c03Step("C03.step.claim", OpClaim, shapeActor("shape"), Opts{Rewards: true}, false) }
-func H_C03_step_slash()      { c03Step("C03.step.slash", OpSlash, shapeActor("shape"), Opts{}, true) }
+func H_C03_step_redelegate() {
+	c03Step("C03.step.redelegate", OpRedelegate, shapeActor("shape"), Opts{}, false)
+}
+func H_C03_step_claim() {
+	c03Step("C03.step.claim", OpClaim, shapeActor("shape"), Opts{Rewards: true}, false)
+}
+func H_C03_step_slash() { c03Step("C03.step.slash", OpSlash, shapeActor("shape"), Opts{}, true) }
 
 // H_C03_step_slash_redel: the source validator of a pending redelegation is slashed; the slash of the
 // redelegated stake edits the destination delegation and the destination validator's delegator-share
